@@ -30,24 +30,40 @@ def listOf (s : String) : List String := if s = "_" || s = "N" then [] else s.sp
 
 def splitDots (s : String) : List String := s.splitOn "."
 
-/-- `H12i3` → class 12 -/
-def classOf (s : String) : Option Nat :=
-  match (String.ofList (s.toList.drop 1)).splitOn "i" with
-  | c :: _ => c.toNat?
-  | [] => none
+def digitsOf (cs : List Char) : List Char × List Char := cs.span Char.isDigit
 
-def parseVal (s : String) : Option Val :=
+/-- a value token `D16i31a31m36`: class 16 under the equality the property means, instance 31 of the
+    harness' table, `a31` = its class under the code's deep comparison where that differs (nil and empty
+    lists/maps are different there), `m36` = the class the pattern has after the program changed the
+    variable it came from (the code keeps the object, not a copy).
+    `useA`: read the value as the code compares it; `useM`: read a pattern as the changed value. -/
+def classOf (useA useM : Bool) (s : String) : Option Nat :=
+  let (c, rest) := digitsOf (s.toList.drop 1)
+  let rest := rest.drop 1                       -- 'i'
+  let (_, rest) := digitsOf rest
+  let (a, rest) := match rest with
+    | 'a' :: r => let (d, r') := digitsOf r; (some d, r')
+    | r => (none, r)
+  let m := match rest with
+    | 'm' :: r => some (digitsOf r).1
+    | _ => none
+  match useM, m, useA, a with
+  | true, some d, _, _ => (String.ofList d).toNat?
+  | _, _, true, some d => (String.ofList d).toNat?
+  | _, _, _, _ => (String.ofList c).toNat?
+
+def parseVal (useA : Bool) (s : String) : Option Val :=
   match s.toList with
   | ['Z'] => some .null
-  | 'H' :: _ => (classOf s).map .atom
-  | 'D' :: _ => (classOf s).map .deep
+  | 'H' :: _ => (classOf useA false s).map .atom
+  | 'D' :: _ => (classOf useA false s).map .deep
   | _ => none
 
-def parsePat (s : String) : Option Pat :=
+def parsePat (useA useM : Bool) (s : String) : Option Pat :=
   match s.toList with
   | ['A'] => some .any
-  | 'H' :: _ => (classOf s).map .atom
-  | 'D' :: _ => (classOf s).map .deep
+  | 'H' :: _ => (classOf useA useM s).map .atom
+  | 'D' :: _ => (classOf useA useM s).map .deep
   | 'X' :: rest => (String.ofList rest).toNat?.map .rx
   | _ => none
 
@@ -63,24 +79,24 @@ def parseEntry (f : String → Option β) (s : String) : Option (String × β) :
   | [k, v] => do pure ((← keyOf k), (← f v))
   | _ => none
 
-def parseRule (s : String) : Option Rule :=
+def parseRule (useA useM : Bool) (s : String) : Option Rule :=
   match s.splitOn ";" with
   | [name, kinds, scopes, state, prio, supp] => do
     let name ← hexStr name
     let kinds ← (listOf kinds).mapM hexStr
     let scopeNil := scopes = "N"
     let scopes ← (if scopeNil then pure [] else (listOf scopes).mapM hexStr)
-    let state ← if state = "N" then pure none else (some <$> (listOf state).mapM (parseEntry parsePat))
+    let state ← if state = "N" then pure none else (some <$> (listOf state).mapM (parseEntry (parsePat useA useM)))
     let prio ← prio.toInt?
     let supp ← (listOf supp).mapM hexStr
     pure { name, kinds := kinds.map splitDots, scope := scopes.map splitDots, scopeNil, state, prio, suppress := supp }
   | _ => none
 
-def parseEvent (s : String) : Option Event :=
+def parseEvent (useA : Bool) (s : String) : Option Event :=
   match s.splitOn ";" with
   | name :: kind :: state :: _ => do
     pure { name := (← hexStr name), kind := (← (listOf kind).mapM hexStr),
-           state := (← (listOf state).mapM (parseEntry parseVal)) }
+           state := (← (listOf state).mapM (parseEntry (parseVal useA))) }
   | _ => none
 
 def parseScope (s : String) : Option (List (List Seg × Bool)) :=
@@ -99,8 +115,8 @@ structure EvX where
   parent : Option (Nat × Nat)
   detached : Bool := false     -- added through a fresh instance state: no parent monitor
 
-def parseEvX (s : String) : Option EvX := do
-  let ev ← parseEvent s
+def parseEvX (useA : Bool) (s : String) : Option EvX := do
+  let ev ← parseEvent useA s
   match s.splitOn ";" with
   | [_, _, _] => pure { ev, scope := none, parent := none }
   | [_, _, _, sc, par] =>
@@ -271,8 +287,9 @@ def runCase (payload : String) : String :=
   let fs := payload.splitOn " "
   match field fs "r", field fs "s", field fs "e", field fs "x" with
   | some r, some s, some e, some x =>
-    match (if r = "_" then some [] else (r.splitOn "|").mapM parseRule), parseScope s,
-          (if e = "_" then some [] else (e.splitOn "|").mapM parseEvX), parseTable x with
+    let parseRules := fun (useA useM : Bool) => if r = "_" then some [] else (r.splitOn "|").mapM (parseRule useA useM)
+    let parseEvs := fun (useA : Bool) => if e = "_" then some [] else (e.splitOn "|").mapM (parseEvX useA)
+    match parseRules true true, parseScope s, parseEvs true, parseTable x with
     | some rules, some defs, some evs, some tab =>
       -- a missing table entry must not go unnoticed
       let missing := evs.any fun e => rules.any fun r => (r.state.getD []).any fun kp =>
@@ -304,9 +321,21 @@ def runCase (payload : String) : String :=
       -- an event added by a sink through a fresh instance state (loop, function, addEventAndWait) loses its cascade
       let detached := evs.any (·.detached)
       let detAlts := if detached then [rend (simulate rx 0 false ff failing rules sc evs ops)] else []
-      let alts := (keyAlts ++ scopeAlts ++ detAlts).filter (· != res) |>.eraseDups
+      -- the code's deep comparison separates nil from empty lists/maps and keeps the object of a list/map
+      -- pattern instead of its value at the declaration: the property's answers are alternatives
+      let variant := fun (useA useM : Bool) =>
+        match parseRules useA useM, parseEvs useA with
+        | some rs, some es => rend (simulate rx 0 true ff failing rs sc es ops)
+        | _, _ => res
+      let aliasAlt := variant true false      -- patterns are the declared values
+      let emptyAlt := variant false true      -- nil and empty alike
+      let bothAlt := variant false false
+      let valueAlts := [aliasAlt, emptyAlt, bothAlt]
+      let alts := (keyAlts ++ scopeAlts ++ detAlts ++ valueAlts).filter (· != res) |>.eraseDups
       let kf := if (keyAlts.filter (· != res)).length > 0 then "\tkf=statematch-nonstring-key"
-        else if (detAlts.filter (· != res)).length > 0 then "\tkf=scope-lost-in-nested-instance-state" else ""
+        else if (detAlts.filter (· != res)).length > 0 then "\tkf=scope-lost-in-nested-instance-state"
+        else if aliasAlt != res then "\tkf=statematch-values-aliased"
+        else if emptyAlt != res || bothAlt != res then "\tkf=empty-list-not-equal" else ""
       let specs := (List.range alts.length).zip alts |>.map fun (i, a) =>
         "\tspec" ++ (if i == 0 then "" else toString (i + 1)) ++ "=" ++ a
       let attrs := kf ++ String.join specs
